@@ -16,6 +16,7 @@ mod eng_cache;
 mod eng_load;
 mod eng_conc;
 mod eng_hr;
+mod eng_own;
 mod eng_bytes;
 mod eng_watch;
 mod srctree;
@@ -36,6 +37,7 @@ fn engines() -> Vec<Box<dyn Engine>> {
     v.push(Box::new(eng_load::LoadEngine::default()));
     v.push(Box::new(eng_conc::ConcEngine::default()));
     v.push(Box::new(eng_hr::HrEngine::default()));
+    v.push(Box::new(eng_own::OwnEngine::default()));
     v.push(Box::new(eng_bytes::BytesEngine::default()));
     v.push(Box::new(eng_watch::WatchEngine::default()));
     v.push(Box::new(eng_src::SrcEngine::default()));
